@@ -197,3 +197,58 @@ func (vc *VC) betweenObligations(fn *ssa.Function, ct *Contract) {
 		vc.sc.oblige(ob)
 	}
 }
+
+// Pairing obligation:
+//
+//   //@   paired[Cxx] <A> <B>
+//
+// every direct call of A in the function is followed, in the same basic block and before any
+// other call, by `defer B(...)` on the same receiver / first argument: what A switches on is
+// switched off again when the function returns, on every path.  (`F/frame:paired.<i>#0`)
+type PairedClause struct {
+	A, B string
+	Tags []string
+}
+
+func (vc *VC) pairedObligations(fn *ssa.Function, ct *Contract) {
+	for ci, pc := range ct.Paired {
+		var bad []string
+		seen := 0
+		for _, b := range fn.Blocks {
+			for i, ins := range b.Instrs {
+				c, ok := ins.(*ssa.Call)
+				if !ok || !siteTargetMatches(calleeName(c.Common()), pc.A) {
+					continue
+				}
+				seen++
+				okPair := false
+			scan:
+				for _, nx := range b.Instrs[i+1:] {
+					switch y := nx.(type) {
+					case *ssa.Defer:
+						if siteTargetMatches(calleeName(&y.Call), pc.B) && len(y.Call.Args) > 0 && len(c.Call.Args) > 0 && y.Call.Args[0] == c.Call.Args[0] {
+							okPair = true
+						}
+						break scan
+					case ssa.CallInstruction:
+						break scan
+					}
+				}
+				if !okPair {
+					bad = append(bad, "call at "+vc.pos(c.Pos())+" is not followed by defer "+pc.B)
+				}
+			}
+		}
+		goal := "true"
+		desc := "every call of " + pc.A + " is followed at once by defer " + pc.B + " on the same receiver"
+		if seen == 0 {
+			goal = "false"
+			desc += "; but the function contains no call of " + pc.A
+		} else if len(bad) > 0 {
+			goal = "false"
+			desc += "; but: " + strings.Join(bad, "; ")
+		}
+		ob := &Obligation{Name: fmt.Sprintf("%s/frame:paired.%d#0", fn.String(), ci), Kind: "frame", Func: fn.String(), Goal: goal, Desc: desc, Claimed: true, Tags: pc.Tags}
+		vc.sc.oblige(ob)
+	}
+}
